@@ -24,10 +24,10 @@ func stuckTag(e *vs.End) (string, string) {
 		return "panic/" + e.Panics[0].Site, e.Panics[0].Value
 	}
 	if e.NonTerminating() {
-		return "livelock/" + e.StuckSites(), e.StuckSites()
+		return "livelock/" + e.LibSites(), e.StuckSites()
 	}
 	if e.Status != vs.Clean {
-		return "stuck/" + e.StuckSites(), fmt.Sprintf("threads never returned: %+v", e.Stuck)
+		return "stuck/" + e.LibSites(), fmt.Sprintf("threads never returned: %+v", e.Stuck)
 	}
 	return "", ""
 }
